@@ -269,6 +269,8 @@ def same_export(hist, fresh, canon_vars):
         return same(hist, fresh)
     hv, fv = hist[1], fresh[1]
     for k in fv:
+        if k == "qa_records":
+            continue                       # holds the wall-clock date and time of the export
         if k not in hv or not same(hv[k], fv[k]):
             return "export_var_" + k
     for k in hv:
@@ -589,10 +591,27 @@ def main(ck):
            ("data", "topo_face", "mean"), ("data", "gradient", "mean"), ("data", "integrate", "mean"), ("data", "difference_node", "mean")]
     derive_all = [(0, ("attr", a), []) for a in ("face_face_connectivity", "node_face_connectivity", "hole_edge_indices", "face_lon", "edge_lon",
                                                   "face_areas", "edge_node_distances", "edge_face_distances", "edge_node_z", "bounds")]
+    derive_conn = [(0, ("attr", a), []) for a in ("face_edge_connectivity", "edge_face_connectivity", "node_face_connectivity", "node_x")]
     chunk_count = 0
-    for o in (obs if ck.tier == "thorough" else rng.sample(obs, 14)):
+    # (a) everything derived before chunk(): later reads come from the chunked variables (sampled in quick)
+    # (b) only connectivity derived before chunk(): later derivations compute FROM chunked variables (all)
+    for o in (obs if ck.tier == "thorough" else rng.sample(obs, 12)):
         chunk_count += 1
         run_history(ck, [pm], ["lonlat"], derive_all + [(0, ("chunk", 2), []), (0, o, [])], [pref], g0, None, stats)
+    for o in obs:
+        chunk_count += 1
+        run_history(ck, [pm], ["lonlat"], derive_conn + [(0, ("chunk", 2), []), (0, o, [])], [pref], g0, None, stats)
+    # conversions with a shifted central longitude must not leak into grid-level state
+    shifted = 0
+    for fam in ("gdf", "poly", "line"):
+        for pj in ("robinson120", "platecarree-75"):
+            for pe in ("exclude", "ignore"):
+                shifted += 1
+                op = (fam, pe, pj, "spatialpandas", True, False) if fam == "gdf" else (fam, pe, pj, True, False)
+                after = [(0, ("attr", "antimeridian_face_indices"), []), (0, ("gdf", "exclude", None, "spatialpandas", True, False), []),
+                         (0, ("poly", "split", None, True, False), []), (0, ("line", "exclude", None, True, False), [])]
+                run_history(ck, [pm], ["lonlat"], [(0, op, [])] + after, [pref], g0, None, stats)
+    chunk_count += shifted
     ck.cov["evaluations"] += pair_count + triple_count + chunk_count
     # the correspondence broke: look for a concrete observable difference harder (longer histories)
     if ck.corr_failures and not ck.violations:
